@@ -14,8 +14,17 @@ def run(res):
     n = 300 if res.tier == "quick" else 3000
     sched_common.campaign(res, "C09", "felock_prog", variants(res.seed), n, ["felock", "cond", "mutex"],
                           workers_note=", W in 1..3 workers; single-slot mailbox with <= 3 producers x <= 3 consumers x <= 6 items, plain lock/unlock mixed in")
+    if not res.violations:
+        # oracle-only runs of the mailbox WITH READERS (wait full, read, leave full): mark_and_signal(t) on a felock
+        # whose status already is t must still let the next thread waiting for t proceed
+        rff = [[2, 1, 1, 3, res.seed * 10 + 1, 2, 3], [3, 1, 1, 2, res.seed * 10 + 2, 3, 2], [2, 2, 1, 2, res.seed * 10 + 3, 2, 2],
+               [1, 1, 1, 2, res.seed * 10 + 4, 2, 2], [3, 2, 2, 2, res.seed * 10 + 5, 4, 2]]
+        sched_common.campaign(res, "C09", "felock_rff_prog", rff, n // 3, [],
+                              workers_note=", mailbox with 2..4 readers that leave the slot full (oracle only: exclusivity, valid reads, every participant returns)")
     if res.breaks and not res.violations:
         sched_common.search_more(res, "C09", "felock_prog", variants(res.seed + 1), 400)
+    if res.breaks and not res.violations:
+        sched_common.search_more(res, "C09", "felock_rff_prog", [[3, 1, 1, 3, res.seed * 10 + 7, 3, 3], [2, 2, 1, 2, res.seed * 10 + 8, 4, 2]], 400)
     res.assumptions += [
         "layered proof: the felock model uses the abstract mutex / condition-variable interface; that the real primitives refine it is C04 / C05, and the same traces are accepted by the mutex and cond models as well",
         "'no participant sleeps forever' is proved as: a quiescent reachable state has no sleeper waiting for the current status and no lost signal (C09_no_stuck / C09_no_lost_signal); in a balanced exchange this leaves nobody asleep; fairness of the scheduler is assumed",
